@@ -41,3 +41,25 @@ Example C04_src_structure_example :
   AbstractModule_structure (C RModule e (module_structure e))
   = Ok (sch_of_string "GGTCTCN(NNNN)(NN*N)(NNNN)NGAGACC").
 Proof. vm_compute. reflexivity. Qed.
+
+(* AbstractPart.structure() AS TRANSLATED FROM parts.py — the cut site "^NNNN_" / "_NNNN^" located in
+   elucidate() resp. its reverse complement and replaced by the signature in group parentheses —
+   returns, for EVERY enzyme with an unambiguous site and EVERY signature of IUPAC letters, module
+   part or vector part, a text that reads as Typing.part_structure of the signature read through
+   the letter map: the pattern C05's theorems speak about *)
+Theorem C05_src_part_structure : forall c wu wd,
+  Forall unamb (esite (pc_enz c)) -> pc_sig c = (map SL wu, map SL wd) ->
+  exists t, AbstractPart_structure c = Ok t /\
+    sch_tok t = Some (part_structure (pc_role c) (pc_enz c)
+                        (map (fun x => Atom (codes_of x)) wu) (map (fun x => Atom (codes_of x)) wd)).
+Proof. exact AbstractPart_structure_eq. Qed.
+Print Assumptions C05_src_part_structure.
+
+(* non-vacuity: the example of the class docstring, and a vector part with an ambiguous signature *)
+Example C05_src_part_example :
+  let e := E [cG;cG;cT;cC;cT;cC] 1 4 in
+  AbstractPart_structure (PCS RModule e (sch_of_string "ATGC", sch_of_string "ATTC"))
+  = Ok (sch_of_string "GGTCTCN(ATGC)(NN*N)(ATTC)NGAGACC")
+  /\ AbstractPart_structure (PCS RVector e (sch_of_string "ANNR", sch_of_string "GCTT"))
+  = Ok (sch_of_string "N(GCTT)(NGAGACCN*GGTCTCN)(ANNR)N").
+Proof. vm_compute. split; reflexivity. Qed.
